@@ -304,7 +304,12 @@ class ExprMixin:
                 self.exec_block(c['node'].body)
             except ContinueSig:
                 pass
-            except (BreakSig, Returned, Raised) as sig:
+            except Raised:
+                if getattr(c['node'], '_is_cm', False):
+                    raise        # @contextmanager: an exception of the with body is thrown into the generator at its yield
+                import sys as _sys
+                raise ConsumerSignal(_sys.exc_info()[1])
+            except (BreakSig, Returned) as sig:
                 raise ConsumerSignal(sig)
         finally:
             cons.append(c)
